@@ -214,7 +214,7 @@ def _run_msgs(ctx, cases, tmpdir, adversarial, oracle_only, rng):
     for c in cases:
         b = dc.Built(c, tmpdir)
         try:
-            pdatas, err = dc.real_encode(b.msg, c["cid"], c["max"])
+            pdatas, err = dc.real_encode(b.msg, c["cid"], c["max"], observed=c["seed"] % 3 == 0)
         finally:
             b.close()
         pdvs = dc.pdvs_of(pdatas)
@@ -244,6 +244,17 @@ def _run_msgs(ctx, cases, tmpdir, adversarial, oracle_only, rng):
             if real_dec is not None:
                 reqs.append(dc.lean_dec_request(groups))
                 pending.append(("dec", c, real_dec))
+                if c["cls"] == "C_STORE_RQ" and b.flag != 0x0101 and rng.random() < 0.5:
+                    # the same fragments received into a file (STORE_RECV_CHUNKED_DATASET), in the grouping of the case and
+                    # with everything in ONE P-DATA (last command fragment and data fragments together)
+                    for g4, how in ((groups, "as-grouped"), ([list(pdvs)], "one-pdu")):
+                        r4, _ = dc.real_decode(g4, c["wire"], chunked=True)
+                        c4 = {"op": "chunked", "how": how, "groups": g4}
+                        ctx.case(c4, nontrivial=True, kind=f"chunked-receive:{how}:{r4[0]}")
+                        if r4[0] != "complete" or r4[3] != b.expect_ds:
+                            ctx.fail(f"{PREFIX}:chunked-receive-reassembly:{how}",
+                                     f"C-STORE-RQ received into a file ({how}): {r4[0]}, {len(r4[3])} data-set bytes in the file, sent "
+                                     f"{len(b.expect_ds)}", c4)
                 if b.flag == 0x0001 and rng.random() < 0.35:
                     # PS3.7: 0101H = no data set, ANY other value = a data set follows; pynetdicom writes 0001H, a peer
                     # may write something else
@@ -486,6 +497,11 @@ def replay(ctx, case):
         peer = c["acc_max"] if c["requestor"] else c["req_max"]
         print("maximum_pdu_size:", mx, "peer's maximum:", peer, "PDV-list sizes:", sizes[:40], "exception:", err, "intact:", intact)
         return 1 if (peer and any(sz > peer for sz in sizes)) or err or not intact else 0
+    if c["op"] == "chunked":
+        r = dc.real_decode([[(a, k, bytes.fromhex(p[1:])) if isinstance(p, str) else (a, k, bytes(p)) for a, k, p in g] for g in c["groups"]], False, chunked=True)[0]
+        sent = sum(len(p) // 2 if isinstance(p, str) else len(p) for g in c["groups"] for a, k, p in g if not k & 1)
+        print("received into a file (%s): %s, %d data-set bytes in the file, %d sent" % (c["how"], r[0], len(r[3]), sent))
+        return 0 if r[0] == "complete" and len(r[3]) == sent else 1
     if c["op"] == "peer-flag":
         r = dc.real_decode([[(a, k, bytes.fromhex(p[1:])) if isinstance(p, str) else (a, k, bytes(p)) for a, k, p in g] for g in c["groups"]])[0]
         print("CommandDataSetType %#06x -> receiver: %s, %d data-set bytes" % (c["flag"], r[0], len(r[3])))
